@@ -392,19 +392,19 @@ static bool run_case2(std::string const& op, Toks& in, Out& impl, Out& ref)
         ref.tok("ok"); cmp6(ref, sc::month{a}, sc::month{b});
         return true;
     }
-    if (op == "mctor" || op == "mctor_max") {
+    if (op == "mctor") {
         auto m = static_cast<unsigned>(in.num());
         guarded(impl, [&](Out& o) { o.tok("ok"); uo(o, ec::month{m}); });
         if (m <= 255) { ref.tok("ok"); uo(ref, sc::month{m}); }
         return true;
     }
-    if (op == "dctor" || op == "dctor_max") {
+    if (op == "dctor") {
         auto d = static_cast<unsigned>(in.num());
         guarded(impl, [&](Out& o) { o.tok("ok"); uo(o, ec::day{d}); });
         if (d <= 255) { ref.tok("ok"); uo(ref, sc::day{d}); }
         return true;
     }
-    if (op == "day_plus" || op == "day_plus_max") {
+    if (op == "day_plus") {
         auto d = static_cast<unsigned>(in.num()); auto dd = static_cast<int>(in.num());
         impl.tok("ok");
         part(impl, [&](Out& o) { uo(o, ec::day{d} + ec::days{dd}); });
@@ -413,7 +413,7 @@ static bool run_case2(std::string const& op, Toks& in, Out& impl, Out& ref)
         if (r >= 0 && r <= 255) { ref.tok("ok"); uo(ref, sc::day{d} + sc::days{dd}); uo(ref, sc::days{dd} + sc::day{d}); }
         return true;
     }
-    if (op == "day_minus" || op == "day_minus_max") {
+    if (op == "day_minus") {
         auto d = static_cast<unsigned>(in.num()); auto dd = static_cast<int>(in.num());
         impl.tok("ok");
         part(impl, [&](Out& o) { uo(o, ec::day{d} - ec::days{dd}); });
@@ -658,7 +658,7 @@ static bool run_case2(std::string const& op, Toks& in, Out& impl, Out& ref)
     if (op == "slash") {
         auto y = static_cast<int>(in.num()); auto m = static_cast<unsigned>(in.num()); auto d = static_cast<unsigned>(in.num());
         guarded(impl, [&](Out& o) { slash<E>(o, y, m, d); });
-        slash<S>(ref, y, m, d);
+        if (m <= 255 && d <= 255) { slash<S>(ref, y, m, d); }   // larger values: unspecified in std, contract in etl
         return true;
     }
     return false;
